@@ -70,7 +70,7 @@ def boolnone_like(rng: random.Random) -> str:
 def text(rng: random.Random, cls: str | None = None) -> str:
     """a single-line string leaf of a given class (see DESIGN 7 / C01)"""
     classes = ["word", "empty", "multi", "path", "delim", "nested1", "nested2", "backslash", "exotic", "numlike",
-               "boolnone", "placeholderish", "punct"]
+               "boolnone", "placeholderish", "punct", "padded"]
     cls = cls or rng.choice(classes)
     if cls == "word":
         return word(rng)
@@ -106,6 +106,9 @@ def text(rng: random.Random, cls: str | None = None) -> str:
         return boolnone_like(rng) + rng.choice(["", "", " ", "x"])
     if cls == "placeholderish":
         return rng.choice(["COMMENTARY", "BLOCK", "LINE000001", "000001", "INCLUDED", "EXPR", "STRING", "LITERAL000000"]).replace("COMMENT", "KOMMENT").replace("INCLUDE", "INKLUDE")
+    if cls == "padded":
+        w = word(rng)
+        return rng.choice([" " + w, w + " ", "  " + w + "  ", "\t" + w, w + "\t", " ", "   ", "\u00a0" + w, w + "\u2003"])
     if cls == "punct":
         return "".join(rng.choice("=#%&!?*@^~|+-_.") for _ in range(rng.randint(1, 4))) + word(rng, 3)
     raise ValueError(cls)
